@@ -8,6 +8,8 @@ import (
 	"strings"
 	"time"
 
+	grpcammo "github.com/yandex/pandora/components/providers/grpc"
+	"github.com/yandex/pandora/components/providers/grpc/grpcjson"
 	"github.com/yandex/pandora/core"
 	"github.com/yandex/pandora/core/engine"
 	"github.com/yandex/pandora/core/warmup"
@@ -91,9 +93,17 @@ func SortedSamples(ss []Sample) string {
 // RunEngine runs the decoded pool through the real engine with the recording aggregator and returns the
 // engine error text ("" = nil).
 func RunEngine(yamlText string, aggr *Aggr, timeout time.Duration) string {
+	return RunEngineWith(yamlText, aggr, timeout, nil)
+}
+
+// RunEngineWith: prep (if any) sees the decoded provider before the engine starts it.
+func RunEngineWith(yamlText string, aggr *Aggr, timeout time.Duration, prep func(core.Provider)) string {
 	conf, err := DecodePool(yamlText)
 	if err != nil {
 		return "config:" + Enc(err.Error())
+	}
+	if prep != nil {
+		prep(conf.Engine.Pools[0].Provider)
 	}
 	conf.Engine.Pools[0].Aggregator = aggr
 	eng := engine.New(zap.NewNop(), NewMetrics(), conf.Engine)
@@ -145,12 +155,18 @@ type Manual struct {
 	provErr  chan error
 }
 
-func NewManual(yamlText string, n int) (*Manual, error) {
+func NewManual(yamlText string, n int) (*Manual, error) { return NewManualWith(yamlText, n, nil) }
+
+// NewManualWith: prep (if any) sees the decoded provider before its Run is started.
+func NewManualWith(yamlText string, n int, prep func(core.Provider)) (*Manual, error) {
 	conf, err := DecodePool(yamlText)
 	if err != nil {
 		return nil, fmt.Errorf("config: %w", err)
 	}
 	pool := conf.Engine.Pools[0]
+	if prep != nil {
+		prep(pool.Provider)
+	}
 	m := &Manual{Provider: pool.Provider, Aggr: &Aggr{}, provErr: make(chan error, 1)}
 	ctx, cancel := context.WithCancel(context.Background())
 	m.cancel = cancel
@@ -243,6 +259,31 @@ func (m *Manual) Close() {
 	for _, g := range m.Guns {
 		if c, ok := g.(interface{ Close() error }); ok {
 			_ = c.Close()
+		}
+	}
+}
+
+// DirtyPool returns a prep function that puts k used ammo objects into the grpc/json provider's sync.Pool before the
+// provider runs: objects that carry a rich earlier entry (tag, call, metadata, every payload field), every other one
+// flagged invalid — what the pool of a long run holds once instances have released their ammo. Whatever Get hands out,
+// a line must be delivered as the line says (Model/C20Pool.lean dirtyObj, theorem C20_pool_oracle).
+func DirtyPool(k int) func(core.Provider) {
+	return func(p core.Provider) {
+		jp, ok := p.(*grpcjson.Provider)
+		if !ok {
+			return
+		}
+		for i := 0; i < k; i++ {
+			a := &grpcammo.Ammo{
+				Tag:      "dirty" + strconv.Itoa(i),
+				Call:     "target.TargetService.Order",
+				Metadata: map[string]string{"x-stale": "stale" + strconv.Itoa(i), "authorization": "Bearer stale"},
+				Payload:  map[string]interface{}{"token": "stale", "user_id": 77, "item_id": 7001},
+			}
+			if i%2 == 1 {
+				a.Invalidate()
+			}
+			jp.Pool.Put(a)
 		}
 	}
 }
